@@ -164,8 +164,9 @@ def run(check, repo: Repo) -> None:
                 n_nested += 1
                 val = n.stmt.value
                 shares = vname in names_in(val) and not (isinstance(val, ast.Call) and (call_name(val) or "").endswith("deepcopy"))
+                shallow = unparse(val) in (vname, f"dict({vname})", f"{vname}.copy()", f"{{**{vname}}}", f"copy.copy({vname})", f"copy({vname})", f"dict(**{vname})")
                 check.decide(not shares, "C19-R6", f"update: nested table `{unparse(n.stmt)[:40]}` is rebuilt, not shared",
-                             "", mod.line(n.stmt),
+                             "", mod.line(n.stmt), definite=shallow,      # a positively recognised alias / shallow copy of the incoming mapping
                              fail_detail=f"a Mapping value is stored as `{unparse(val)}`: deeper tables stay shared with "
                                          f"the source (the stored defaults), so a later set on a deep key writes into the "
                                          f"defaults and refresh no longer restores them")
